@@ -387,7 +387,7 @@ def rule_dsconst(ctx, R, F):
             progs = [show(x) for x in walk(loops[0]['b']) if x['k'] == 'Call' and x.get('opcall') == '[]' and 'programs' in show(x)]
         R.check(progs == ['P0->programs[I]'], 'round i uses program i', loc(loops[0], f), expected=['P0->programs[I]'], found=progs)
         xor = [x for x in walk(loops[0]['b']) if x['k'] == 'For']
-        R.check(len(xor) == 1 and loop_trip(xor[0]) == 8 and '^=' in show(xor[0]['b']), 'xor of the whole cache line', loc(loops[0], f), expected='8 x rl[q] ^= load64(mixBlock + 8q)', found=show(xor[0]['b']) if xor else None)
+        R.check(len(xor) == 1 and loop_trip(xor[0]) == 8 and any(y['k'] == 'CAssign' and y['op'] == '^=' for y in walk(xor[0]['b'])), 'xor of the whole cache line', loc(loops[0], f), expected='8 x rl[q] ^= load64(mixBlock + 8q)', found=show(xor[0]['b']) if xor else None)
     mc = [c for c in calls(f['body']) if c.get('name') == 'memcpy']
     with astq.renaming(ren):
         R.check(len(mc) == 1 and showv(mc[0]['a'][0]) == 'P1' and val(mc[0]['a'][2]) == 64, 'result copy', '%s:%d' % (f['file'], f['line']), expected='memcpy(out, rl, 64)', found=[showv(c) for c in mc])
